@@ -424,6 +424,76 @@ class World(object):
                 else                  : os.unlink(path)
 
 
+def _launch_bulk(self, label, schema, pds, env_smt):
+    '''
+    real _start_pilot_bulk with several pilots in one bulk; returns the list
+    of (node_count, total_cpu_count, total_gpu_count, agent nodes, agent
+    backup_nodes, agent cores, agent gpus) per pilot, in order
+    '''
+    if env_smt: os.environ['RADICAL_SMT'] = str(env_smt)
+    else      : os.environ.pop('RADICAL_SMT', None)
+    self.launcher.jobs = list()
+    self.component._pilots.clear()
+    try:
+        pilots = [self.make_pilot(pd) for pd in pds]
+        self.component._start_pilot_bulk(label, schema, pilots)
+        assert len(self.launcher.jobs) == len(pilots), self.launcher.jobs
+        out = list()
+        for pilot, jd in zip(pilots, self.launcher.jobs):
+            src = [sd['source'] for sd in pilot['sds']
+                   if str(sd['target']).endswith('/agent_0.cfg')]
+            told = ru.read_json(src[0])
+            out.append((jd.node_count, jd.total_cpu_count, jd.total_gpu_count,
+                        told.get('nodes'), told.get('backup_nodes'),
+                        told.get('cores'), told.get('gpus')))
+        return out
+    finally:
+        os.environ.pop('RADICAL_SMT', None)
+        for entry in os.listdir(self.tmp):
+            path = os.path.join(self.tmp, entry)
+            if os.path.isdir(path): shutil.rmtree(path, ignore_errors=True)
+            else                  : os.unlink(path)
+
+
+World.launch_bulk = _launch_bulk
+
+
+def check_bulk(w, label, schema, raw, env_smt, sizes, record):
+    '''
+    history independence: pilots submitted together in one bulk are sized as
+    if each were submitted alone
+    '''
+    pds = list()
+    for size in sizes:
+        try:
+            pds.append(w.describe(label, schema, size, raw))
+        except ValueError:
+            return None
+    try:
+        w.reset_cache()
+        alone = list()
+        for pd in pds:
+            alone += w.launch_bulk(label, schema, [pd], env_smt)
+            w.reset_cache()
+        both = w.launch_bulk(label, schema, pds, env_smt)
+    except Exception:
+        return None          # refusals are the single-pilot clauses' business
+    for i, (a, b) in enumerate(zip(alone, both)):
+        if a != b:
+            ns = node_size(raw, schema, env_smt)
+            record('bulk-position', SITE_PP, None,
+                   '%s [%s] RADICAL_SMT=%s: pilot %s as #%d of a bulk %s is '
+                   'sized (job nodes, cpus, gpus, agent nodes, backup, cores, '
+                   'gpus) = %s, alone %s'
+                   % (label, schema, env_smt or 'unset', sizes[i], i + 1,
+                      sizes, b, a),
+                   {'kind': 'bulk', 'label': label, 'schema': schema,
+                    'env_smt': env_smt, 'sizes': sizes},
+                   key='pilot-%d-of-bulk:smt%s'
+                       % (i + 1, '>1' if (ns['smt'] or 1) > 1 else '=1'))
+    return ('bulk', tuple(both))
+
+
 _world = None
 
 
@@ -811,6 +881,19 @@ def check_platform(w, label, tier):
                                  'usable gpus/node': ns['g'],
                                  'resolved': names,
                                  'job (nodes, cpus, gpus)': list(obs[-3:])})
+
+            # two pilots in one bulk, both orders
+            sizes = [sz for sz in sizes_for(ns, tier)][:6]
+            pairs = [(sizes[0], sizes[-1]), (sizes[-1], sizes[0])] \
+                    if len(sizes) >= 2 else []
+            if len(sizes) >= 4:
+                pairs.append((sizes[1], sizes[2]))
+            for pair in pairs:
+                obs = check_bulk(w, label, schema, raw, env_smt, list(pair),
+                                 record)
+                if obs:
+                    neval += 1
+                    part.outcome(obs)
 
     part.cover(evaluations=neval, pairs=npair, platforms=1)
 
